@@ -6,6 +6,7 @@ CONSTANTS
   TrigSets = {{},{2}}
   MaxNow = 0
   MaxStores = 4
+  Shared = FALSE
   Threads = {1,2}
   OpsPerThread = 2
   BugCopyAfterUnlock = FALSE
